@@ -939,6 +939,26 @@ func (c *SpecCtx) evalCall(e *ECall) Val {
 	case "isinf":
 		x := c.materialize(c.eval(e.Args[0]), types.Typ[types.Float64])
 		return Val{T: fmt.Sprintf("(fp.isInfinite %s)", x.T), Typ: boolT}
+	case "joinlen":
+		// joinlen(s): number of parts of a string produced by strings.Join
+		sv := c.eval(e.Args[0])
+		enc.declJoin()
+		return Val{T: fmt.Sprintf("(strjoin.len %s)", sv.T), Typ: intT}
+	case "joinpart":
+		sv := c.eval(e.Args[0])
+		iv := c.toInt(c.eval(e.Args[1]))
+		enc.declJoin()
+		return Val{T: fmt.Sprintf("(strjoin.part %s %s)", sv.T, iv), Typ: types.Typ[types.String]}
+	case "fmtint":
+		xv := c.materialize(c.eval(e.Args[0]), types.Typ[types.Int64])
+		bv := c.toInt(c.eval(e.Args[1]))
+		enc.declFmtNum("strconv.FormatInt", types.Typ[types.Int64])
+		return Val{T: fmt.Sprintf("(fmtnum.strconv.FormatInt %s %s)", xv.T, bv), Typ: types.Typ[types.String]}
+	case "fmtuint":
+		xv := c.materialize(c.eval(e.Args[0]), types.Typ[types.Uint64])
+		bv := c.toInt(c.eval(e.Args[1]))
+		enc.declFmtNum("strconv.FormatUint", types.Typ[types.Uint64])
+		return Val{T: fmt.Sprintf("(fmtnum.strconv.FormatUint %s %s)", xv.T, bv), Typ: types.Typ[types.String]}
 	case "match":
 		// match(re, s): the regular expression re matches s (an arbitrary but fixed predicate)
 		re := c.eval(e.Args[0])
